@@ -1,10 +1,10 @@
 CONSTANTS
-  NP = 1
+  NP = 2
   NLines = 2
   Dev = {}
-  Lvls = {TRUE, FALSE}
-  TwoPhase = FALSE
-  Grain = "stmt"
+  Lvls = {TRUE}
+  TwoPhase = TRUE
+  Grain = "seam"
 SPECIFICATION Spec
 INVARIANT InvExactlyOnce
 INVARIANT InvDisabledAbsent
@@ -12,5 +12,6 @@ INVARIANT InvProducerOrder
 INVARIANT InvSeqConsecutive
 INVARIANT InvRetIffAccepted
 INVARIANT InvStopComplete
-PROPERTY StopReturns
+CONSTRAINT Edge
+VIEW View
 CHECK_DEADLOCK FALSE
